@@ -55,6 +55,19 @@ NATIVE_TAG = {
 }
 
 
+OFFSET_EDGES = [0, 0, 330, -480, 60, -1, 1, 59, -59, 840, -840, -600, 600, -660, 780, -720, 720, -210, -570, 345, 765, -30, 30, -90]
+
+
+def rand_offset(rnd) -> int:
+    """A fixed UTC offset in minutes within -14:00..+14:00: edges, offsets 24 h apart (-10:00/+14:00 ...), quarter hours, any minute."""
+    r = rnd.random()
+    if r < 0.5:
+        return rnd.choice(OFFSET_EDGES)
+    if r < 0.85:
+        return rnd.randint(-56, 56) * 15
+    return rnd.randint(-840, 840)
+
+
 def ts_text(us: int, offset_min: int = 0) -> str:
     """RFC 3339 text of an instant, written in the given fixed offset."""
     local = us + offset_min * 60 * 10**6
